@@ -19,8 +19,10 @@ def _legal(H, emitted, cs, ca, prev_ts):
     mask the environment itself handed out with the previous timestep"""
     if emitted and prev_ts is not None:
         m = np.asarray(vs(H.mask_of(prev_ts.observation, H.OBS_MASK)), dtype=object)
-        return all_(H.allowed_by(m, ca))
-    return all_(H.action_legal(cs, ca))
+        return all_((getattr(H, "play_allowed_by", None) or H.allowed_by)(m, ca))   # same hook for an emitted mask with an all-False row
+    # optional harness hook `play_legal`: what "mask-respecting play" means where the plain rule has no legal action for an
+    # agent (e.g. MMST: a finished agent's mask is all False, any action of it then stands for a no-op)
+    return all_((getattr(H, "play_legal", None) or H.action_legal)(cs, ca))
 
 
 def run(R, H, obl_fn, reset_obl=None, legal_only=False, depth=None, init=None, emitted=False, prefix=""):
@@ -38,7 +40,20 @@ def run(R, H, obl_fn, reset_obl=None, legal_only=False, depth=None, init=None, e
 
     def make_replay(d, name):
         def replay(model):
-            s = jax.tree_util.tree_map(jnp.asarray, S.model_tree(model, st0))
+            s0 = jax.tree_util.tree_map(jnp.asarray, S.model_tree(model, st0))
+            res = once(model, s0)
+            # optional harness hook `replay_variants(s0)`: the jax.random stubs leave the draws (e.g. MMST's tie-break shuffle)
+            # arbitrary, so the model's own PRNG key need not realise the modelled draw on the real code; the harness may
+            # offer the same initial state with other real keys and the first one that reproduces the violation is reported
+            if res is not None and not res[0] and hasattr(H, "replay_variants"):
+                for s_alt in H.replay_variants(s0):
+                    r2 = once(model, s_alt)
+                    if r2 is not None and r2[0]:
+                        return r2
+            return res
+
+        def once(model, s):
+            s_init = s
             alive_c, legal_c = True, True
             tr = []
             prev = None
@@ -57,7 +72,7 @@ def run(R, H, obl_fn, reset_obl=None, legal_only=False, depth=None, init=None, e
                     if not (alive_c and legal_c):
                         return False, {"note": "guard false on real run", "trace": tr}
                     from checks.drivers import _brief
-                    return (not holds), {"config": H.cfg, "obligation": name, "depth": d + 1, "initial_state": _brief(S.model_tree(model, st0)),
+                    return (not holds), {"config": H.cfg, "obligation": name, "depth": d + 1, "initial_state": _brief(jax.tree_util.tree_map(np.asarray, s_init)),
                                          "trace": tr, "final_state": _brief(jax.tree_util.tree_map(np.asarray, ns))}
                 if legal_only:
                     legal_c = legal_c and bool(_legal(H, emitted, cs, ca, prev))
@@ -88,7 +103,7 @@ def run(R, H, obl_fn, reset_obl=None, legal_only=False, depth=None, init=None, e
                 try:
                     s_np, a_np = S.model_tree(m, st0), S.model_sv(m, act)
                     out = C.real_step(H.env, s_np, a_np)
-                    S.differential(R, type(H.env).__name__ + ".step", (st0, act), (ns, ts), out, (s_np, a_np))
+                    S.differential(R, type(H.env).__name__ + ".step", (st0, act), (ns, ts), out, (s_np, a_np), ulps=getattr(H, "DIFF_ULPS", 0))
                     from checks.drivers import _brief
                     R.sample({"config": H.cfg, "instance_from_solver": _brief(s_np), "action": np.asarray(a_np).tolist()})
                 except Exception as e:  # noqa
